@@ -256,6 +256,9 @@ def check(ctx, rep):
     rep.rule("R16h", "the archive VFS reports every member as a regular file and every directory as a directory: the file-type bits of stat() are constants, not archive metadata", floor=1)
     rep.rule("R16i", "the index builder makes a directory level only where that name is not in its parent yet: an explicit directory member listed "
              "after its children (or twice) does not replace the level that holds them", floor=1)
+    rep.rule("R16k", "every description of an item from the file system is given the VFS the handler works on (no fall-back to the real file system)", floor=3)
+    rep.rule("R16l", "member data and metadata are read under the name the index gives, never under the request path (links are resolved and names "
+             "transcoded in the index)", floor=2)
     rep.rule("R16j", "entry, listing and document of an archive request are the inner handler's, on every path of the ZIP handler's methods", floor=4)
     rep.rule("R16d", "inner handler = HandlerMultiplexer.getHandler(..., vfs=<archive VFS>) on the same selector", floor=1)
     rep.assume("zipfile.ZipFile methods act on the already opened archive only")
@@ -338,6 +341,35 @@ def check(ctx, rep):
                             looked.add(a[0].value if a and a[0].kind == "const" else None)
             except Exception:
                 looked = {None}
+            if None in looked or not looked:
+                # second attempt: the loop variable is a model object (a mapping or a named tuple, whichever the code reads)
+                import collections as _collections
+
+                attrs = sorted({n.attr for n in ast.walk(loop) if isinstance(n, ast.Attribute) and isinstance(n.value, ast.Name) and n.value.id == var})
+                keys = sorted({n.slice.value for n in ast.walk(loop) if isinstance(n, ast.Subscript) and isinstance(n.value, ast.Name) and n.value.id == var
+                               and isinstance(n.slice, ast.Constant) and isinstance(n.slice.value, str)})
+
+                def val_for(name_):
+                    return dest if "dest" in name_ or "target" in name_ else pathname if "path" in name_ else {} if "level" in name_ or "dir" in name_ else "linkname"
+                model = None
+                if attrs and not keys and all(a.isidentifier() and not a.startswith("_") for a in attrs):
+                    model = _collections.namedtuple("PendingLink", attrs)(*[val_for(a) for a in attrs])
+                elif keys and not attrs:
+                    model = {k: val_for(k) for k in keys}
+                if model is not None:
+                    w = Walker(prog, ctx.resolver, exact_loops=True, unroll=4,
+                               inline=lambda fn, t, d: d < 2 and t.bound_cls is not None and fn.name not in ("_isentryincache", "_getcacheinode", "_getcacheentry"))
+                    w.frame = (loopfunc, S)
+                    w._budget = 200000
+                    looked = set()
+                    try:
+                        for kind, val, st in w.exec_block(loop.body, State(env={var: Const(model)})):
+                            for e in st.events:
+                                if e.kind == "call" and isinstance(e.node.func, ast.Attribute) and e.node.func.attr in ("_isentryincache", "_getcacheinode", "_getcacheentry"):
+                                    a = (e.extra or {}).get("args") or []
+                                    looked.add(a[0].value if a and a[0].kind == "const" else None)
+                    except Exception:
+                        looked = {None}
             problems = []
             if None in looked:
                 problems.append("the member name looked up for this link is not determined by code the analysis understands")
@@ -374,7 +406,8 @@ def check(ctx, rep):
             want = raw.decode("utf-8", errors="surrogateescape")
             facts = {f"{var}.filename": Const(shown), f"{var}.flag_bits": Const(flag)}
             w = Walker(prog, ctx.resolver, assumptions=facts, sticky=set(facts),
-                       inline=lambda fn, t, d: d < 2 and (t.bound_cls is not None or fn.cls is S) and fn.name not in ("_islinkinfo", "_getcacheinode", "_readlink"))
+                       inline=lambda fn, t, d: d < 3 and (t.bound_cls is not None or fn.cls is S or (fn.cls is None and fn.module.name.startswith("pygopherd.")))
+                       and fn.name not in ("_islinkinfo", "_getcacheinode", "_readlink", "is_symlink", "log"))
             w.frame = (pc, S)
             w._budget = 200000
             got = set()
@@ -422,7 +455,7 @@ def check(ctx, rep):
         for inv in histories:
             for path, want in list(members.items()) + [(m_, None) for m_ in missing]:
                 facts = {"self.dircache": Const(dircache), "self.entrycache": Const({}), "self.invalid_paths": Const(set(inv))}
-                w = Walker(prog, ctx.resolver, exact_loops=True, unroll=10)
+                w = Walker(prog, ctx.resolver, exact_loops=True, unroll=10, inline=lambda fn, t, d: d < 3 and t.bound_cls is not None and fn is not gi)
                 outs = set()
                 try:
                     for p in w.run(gi, S, env={param: Const(path)}, facts=dict(facts)):
@@ -449,6 +482,8 @@ def check(ctx, rep):
     stat_mode_obligations(ctx, rep, "R16h")
     index_level_obligations(ctx, rep, "R16i")
     delegation_obligations(ctx, rep, "R16j")
+    vfs_passing_obligations(ctx, rep, "R16k")
+    member_name_obligations(ctx, rep, "R16l")
     # R16d
     zh = ctx.cls("handlers.ZIP.ZIPHandler")
     gh = ctx.func("handlers.HandlerMultiplexer.getHandler")
@@ -475,6 +510,154 @@ def check(ctx, rep):
                      "ZIPHandler never re-runs the handler chain on the archive VFS")
 
 
+_INDEX_CALLS = ("_getcacheentry", "_getcacheinode")
+
+
+def _member_origin(prog, V, m, e, depth=0):
+    """Where the name handed to zip.getinfo/open/read comes from: 'index' | 'request' | 'member' (a member being indexed) | 'param' | 'other'."""
+    if depth > 5:
+        return "other"
+    assigns = getattr(m, "_pgv_assigns", None)
+    if assigns is None:
+        assigns = {}
+        for a in ast.walk(m.node):
+            if isinstance(a, ast.Assign) and len(a.targets) == 1 and isinstance(a.targets[0], ast.Name):
+                assigns.setdefault(a.targets[0].id, []).append(a.value)
+            elif isinstance(a, (ast.For, ast.comprehension)) and isinstance(a.target, ast.Name):
+                assigns.setdefault(a.target.id, []).append(ast.Subscript(value=a.iter, slice=ast.Constant(value="*"), ctx=ast.Load()))
+        try:
+            m._pgv_assigns = assigns
+        except Exception:
+            pass
+    if isinstance(e, ast.Call) and isinstance(e.func, ast.Attribute):
+        if e.func.attr in _INDEX_CALLS:
+            return "index"
+        if e.func.attr in ("getfspath", "_getfspathfinal"):
+            return "request"
+        if e.func.attr in ("infolist",):
+            return "member"
+        if dotted(e.func.value) == "self":
+            g = prog.resolve_method(V, e.func.attr)
+            if g is not None and g is not m:
+                rets = [r.value for r in ast.walk(g.node) if isinstance(r, ast.Return) and r.value is not None]
+                kinds = {_member_origin(prog, V, g, r, depth + 1) for r in rets}
+                if kinds == {"index"}:
+                    return "index"
+                if "request" in kinds or "param" in kinds:
+                    return "request"
+    if isinstance(e, ast.Subscript):
+        base = norm(e.value)
+        if "dircache" in base or "entrycache" in base:
+            return "index"
+        return _member_origin(prog, V, m, e.value, depth + 1)
+    if isinstance(e, ast.Attribute):
+        if norm(e).startswith("self."):
+            return "other"
+        return _member_origin(prog, V, m, e.value, depth + 1)
+    if isinstance(e, ast.Name):
+        if e.id in assigns:
+            kinds = {_member_origin(prog, V, m, v, depth + 1) for v in assigns[e.id]}
+            if "request" in kinds:
+                return "request"
+            return kinds.pop() if len(kinds) == 1 else "other"
+        if e.id in m.params:
+            return "param"
+    return "other"
+
+
+# ---------------------------------------------------------------------------------------------- R16l
+def member_name_obligations(ctx, rep, rule="R16l"):
+    """Inside the archive VFS, the member whose data or metadata is read (zip.getinfo / open / read / extract) is named by the index
+    (the value stored under the looked-up inode, or the name of a member being indexed) - never by the path of the request: the index
+    is where symbolic links are resolved and where names without the UTF-8 flag are transcoded."""
+    prog = ctx.prog
+    vz = ctx.cls("handlers.ZIP.VFSZip")
+    if vz is None:
+        rep.fail(rule, "VFSZip", detail="archive VFS not found")
+        return
+    n = 0
+    for V in prog.subclasses(vz):
+        for m in V.methods.values():
+            def origin(e, _m=m, _V=V):
+                return _member_origin(prog, _V, _m, e)
+
+            for c in ast.walk(m.node):
+                if not (isinstance(c, ast.Call) and isinstance(c.func, ast.Attribute) and norm(c.func.value) == "self.zip"
+                        and c.func.attr in ("getinfo", "open", "read", "extract") and c.args):
+                    continue
+                n += 1
+                o = origin(c.args[0])
+                ok = o in ("index", "member")
+                if o == "param":
+                    # a helper: judged by what its callers in the class hand over
+                    pidx = m.params.index(c.args[0].id) - (1 if m.params[:1] == ["self"] else 0)
+                    callers = []
+                    for m2 in V.methods.values():
+                        for c2 in ast.walk(m2.node):
+                            if isinstance(c2, ast.Call) and isinstance(c2.func, ast.Attribute) and c2.func.attr == m.name and norm(c2.func.value) == "self" \
+                                    and len(c2.args) > pidx:
+                                callers.append((m2, c2.args[pidx]))
+                    live = [(m2, a2) for m2, a2 in callers if any(
+                        isinstance(x, ast.Call) and isinstance(x.func, ast.Attribute) and x.func.attr == m2.name for mm in V.methods.values() for x in ast.walk(mm.node))
+                        or not m2.name.startswith("_")]
+                    ok = all(("info" in norm(a2) or "dircache" in norm(a2) or norm(a2).split(".")[-1] in ("filename",)) for _, a2 in live) if live else True
+                rep.add(rule, f"{m.qualname}: {norm(c)[:50]}", ok, ctx.where(m, c),
+                        "" if ok else f"the member is named by the request path (`{norm(c.args[0])[:40]}`), not by the index: a symbolic link is answered with "
+                        "its own text instead of the member it points to, and names the index transcodes are not found", key=f"{rule}|{m.qualname}|{norm(c.func)}|{norm(c.args[0])[:30]}")
+    if not n:
+        rep.fail(rule, "VFSZip", detail="the archive VFS reads no member")
+
+
+# ---------------------------------------------------------------------------------------------- R16k
+def vfs_passing_obligations(ctx, rep, rule="R16k"):
+    """Every call that has an entry described from the file system (populatefromfs / populatefromvfs / handleeaext) hands on the VFS the
+    handler works on.  Without it the entry falls back to a fresh real-file-system view: for a member of an archive the side files
+    (.abstract, .keywords, ...) are then looked for on the real file system, where they cannot be."""
+    prog = ctx.prog
+    n = 0
+    for f in prog.all_functions():
+        if not (f.module.name.startswith("pygopherd.handlers") or f.module.name == "pygopherd.gopherentry"):
+            continue
+        for c in ast.walk(f.node):
+            if not (isinstance(c, ast.Call) and isinstance(c.func, ast.Attribute) and c.func.attr in ("populatefromfs", "populatefromvfs", "handleeaext")):
+                continue
+            n += 1
+            attr = c.func.attr
+            kw = {k.arg: k.value for k in c.keywords}
+            if attr == "populatefromfs":
+                v = kw.get("vfs") or (c.args[2] if len(c.args) > 2 else None)
+            elif attr == "populatefromvfs":
+                v = kw.get("vfs") or (c.args[0] if c.args else None)
+            else:
+                v = kw.get("vfs") or (c.args[1] if len(c.args) > 1 else None)
+            text = norm(v) if v is not None else None
+            ok = text is not None and (text in ("self.vfs", "vfs") or text in f.params or text.endswith(".vfs"))
+            rep.add(rule, f"{f.qualname}: {norm(c)[:60]}", ok, ctx.where(f, c),
+                    "" if ok else ("the entry is described without the handler's VFS" if text is None else f"the VFS handed on is `{text}`") +
+                    ": side files and metadata of the item are then read from the real file system even when the item is a member of an archive",
+                    key=f"{rule}|{f.qualname}|{attr}|{n if f.name != 'getentry' else ''}")
+    if not n:
+        rep.fail(rule, "populatefromfs", detail="no entry is described from the file system")
+
+
+def _is_inner_handler(prog, zh, func, expr, depth=0) -> bool:
+    """Does `expr` (inside a method of the ZIP handler) denote the inner handler: self.handler, a helper of the class that returns
+    it on every path, or a local bound to one of those?"""
+    if norm(expr) == "self.handler":
+        return True
+    if depth > 2:
+        return False
+    if isinstance(expr, ast.Call) and isinstance(expr.func, ast.Attribute) and dotted(expr.func.value) == "self":
+        g = prog.resolve_method(zh, expr.func.attr)
+        if g is not None:
+            rets = [r for r in ast.walk(g.node) if isinstance(r, ast.Return)]
+            return bool(rets) and all(r.value is not None and _is_inner_handler(prog, zh, g, r.value, depth + 1) for r in rets)
+    if isinstance(expr, ast.Name):
+        vals = [a.value for a in ast.walk(func.node) if isinstance(a, ast.Assign) and any(isinstance(t, ast.Name) and t.id == expr.id for t in a.targets)]
+        return bool(vals) and all(_is_inner_handler(prog, zh, func, v, depth + 1) for v in vals)
+    return False
+
+
 # ---------------------------------------------------------------------------------------------- R16j
 def delegation_obligations(ctx, rep, rule="R16j"):
     """What a protocol asks of the ZIP handler (entry, listing, document) is answered by the inner handler, which the
@@ -497,7 +680,7 @@ def delegation_obligations(ctx, rep, rule="R16j"):
                 continue
             n_paths += 1
             asked = any(e.kind == "call" and isinstance(e.node.func, ast.Attribute) and e.node.func.attr == name
-                        and norm(e.node.func.value) == "self.handler" for e in p.events)
+                        and _is_inner_handler(prog, zh, m, e.node.func.value) for e in p.events)
             if not asked:
                 tests = [f"{norm(e.node)[:40]} is {bool(e.extra)}" for e in p.events if e.kind == "test" and e.extra is not None]
                 bad.append(tests[0] if tests else "unconditionally")
